@@ -239,6 +239,18 @@ def step (st : St) (line : String) : St × Option String :=
           (st, some ("load " ++ showRes (fun (x : EVal × Nat) => showEVal x.1 ++ " region=" ++ toString region.length ++
               " basemod=0 tailzero=true moved=true kind=" ++ toString kind) (t.deEps H 0 region) ++ tailStr))
       | _, _, _ => (st, some "badval")
+  | ["leak", i, loader, reps, h] =>
+      match i.toNat?.bind (st.types[·]?), reps.toNat? with
+      | some t, some n =>
+        let bytes := unhex h.toList
+        let status : String := match loader with
+          | "full" => (match t.deFull H bytes with | .ok _ => "ok" | .err _ => "err" | .panic => "panic")
+          | _ =>
+            let l := match loader with | "mem" => Loader.mem | "mmap" => Loader.mmap | _ => Loader.map
+            (match t.deEps H 0 (regionOf l bytes) with | .ok _ => "ok" | .err _ => "err" | .panic => "panic")
+        (st, some ("leak first=" ++ status ++ " oks=" ++ toString (if status == "ok" then n else 0) ++
+                   " panics=" ++ toString (if status == "panic" then n else 0) ++ " heap=0 maps=0"))
+      | _, _ => (st, some "badval")
   | ["alloc", i, r, val] =>
       match i.toNat?.bind (st.types[·]?), r.toNat?, parseVal val with
       | some t, some r, some v =>
